@@ -699,3 +699,29 @@ Lemma multi_fault_witness :
   exists s', do_weight_m multi_base 2 5 7 [(1%nat, FBefore); (2%nat, FBefore)] = (s', RStorage) /\
     served s' = served multi_base /\ aget (st_lw s') 2 = Some 5 /\ sv s' 2 = Some (SStore "a2" Up false [] (4, 0, 0) 1 1 0 false).
 Proof. eexists. vm_compute. repeat split; reflexivity. Qed.
+
+(* ====================================================================================================
+   A new leader loads the same storage (model: restart)
+   ==================================================================================================== *)
+Lemma aget_map_entries {A B} (g : Z -> A -> B) (l : list (Z * A)) id :
+  aget (map (fun e : Z * A => (fst e, g (fst e) (snd e))) l) id = option_map (g id) (aget l id).
+Proof.
+  induction l as [|[k v] r IH]; [reflexivity|]. cbn. destruct (Z.eqb_spec k id) as [->|]; [reflexivity|exact IH].
+Qed.
+(* what the new leader serves for a store id is exactly what storage holds for it: the record with its weight keys; nothing else *)
+Theorem restart_serves_stored_pf s id : sproj (restart s) id = stored_proj s id.
+Proof.
+  unfold sproj, stored_proj, sv, sm, restart. cbn [served].
+  rewrite (aget_map_entries (fun i m => SStore (m_addr m) (m_state m) (m_pd m) (m_labels m) (m_ver m)
+                                         (match aget (st_lw s) i with Some w => w | None => 1 end)
+                                         (match aget (st_rw s) i with Some w => w | None => 1 end) 0 false)).
+  destruct (aget (st_meta s) id) as [m|]; reflexivity.
+Qed.
+(* hence: a store whose served record agrees with storage (which every successful change establishes: success_full) is served unchanged by
+   the new leader; a tombstone stays a tombstone, an address stays the address *)
+Theorem restart_keeps_agreeing_store_pf s id : agree s id -> sproj (restart s) id = sproj s id.
+Proof. unfold agree. intros A. rewrite restart_serves_stored_pf. symmetry. exact A. Qed.
+Theorem restart_keeps_storage_pf s : st_meta (restart s) = st_meta s /\ st_lw (restart s) = st_lw s /\ st_rw (restart s) = st_rw s.
+Proof. unfold restart. cbn. auto. Qed.
+Theorem restart_idempotent_pf s id : sproj (restart (restart s)) id = sproj (restart s) id.
+Proof. rewrite !restart_serves_stored_pf. reflexivity. Qed.
